@@ -2,6 +2,7 @@ package typescript
 
 import (
 	"fmt"
+	"sort"
 	"strings"
 
 	"github.com/grafana/cog/internal/orderedmap"
@@ -74,8 +75,15 @@ func formatValue(val any) string {
 	if mapVal, ok := val.(map[string]any); ok {
 		buffer.WriteString("{\n")
 
-		for key, value := range mapVal {
-			buffer.WriteString(fmt.Sprintf("\t%s: %s,\n", key, formatValue(value)))
+		// sorted: the output must not depend on the iteration order of the map
+		keys := make([]string, 0, len(mapVal))
+		for key := range mapVal {
+			keys = append(keys, key)
+		}
+		sort.Strings(keys)
+
+		for _, key := range keys {
+			buffer.WriteString(fmt.Sprintf("\t%s: %s,\n", key, formatValue(mapVal[key])))
 		}
 
 		buffer.WriteString("}")
